@@ -23,6 +23,15 @@ Phases (one kind of task each):
   convex   every strictly convex lattice polygon of the 4x4 grid (one per symmetry class: trapezoids, kites, irregular
            quads, pentagons ... the octagon) under the integer affine maps, listed from every corner in both orientations,
            alone and glued to a triangle: areas, normals, barycentres, angles, sums and means against the exact oracle
+  far      (opts / interp / vol_opts tasks and partners tasks with 'far') the same mesh FAR FROM THE ORIGIN: p -> 2^j p + (2^k, -2^k, 2^(k-1))
+           with (k, j) in {(30, 0), (24, -10)} (thorough + (34, 0), (27, -10)), only where every coordinate stays an exact float
+           (exact predicate): a translation is a rigid motion, so every quantity equals the oracle on the translated coordinates
+           (full option cross product) and the value on the base mesh (scalars and directions unchanged, points moved); points are
+           compared relative to the SIZE of the mesh (+ 64 float spacings at that distance), not to the distance
+  kept     (inside bfs / deform / vol_bfs / vol_deform) OWNERSHIP OF RESULTS: every attribute object put on the blackboard by the
+           earlier calls of a history is kept with its values and re-read after every later call (same function with other options,
+           other functions; same geometry, after an in-place deformation, after an in-place similarity transform.scale(3) /
+           transform.translate((8,-16,32))): it still holds the values it had when it was returned
   defaults every function called with each optional argument OMITTED (one at a time in every combination of the other options,
            and all together) and with the options passed POSITIONALLY in the documented order (every prefix): same observable
            behaviour (raise / storage class / where stored / values / whole blackboard) as the call passing the documented
@@ -41,7 +50,8 @@ ID = "C07"
 TECHNIQUE = ("bounded-exhaustive input families x full option cross product vs exact rational oracle; metamorphic "
              "partners (rotations, translations, scales, units of length, relabelings); BFS over request orders of persistent "
              "attributes; request / deform in place / request again histories; argument forms (each option omitted / positional) "
-             "against the pinned documented signatures")
+             "against the pinned documented signatures; placements far from the origin (exact translates by 2^24 .. 2^34, distance / size up to 2e10); "
+             "result objects kept across every history and re-read after every later call")
 RULE = ("inputs: every labelled oriented manifold triangle complex on <=5 vertices, one per isomorphism class on 6 "
         "(thorough: all labelled), ZOO specimens incl. planar-faced quad/polygon polyhedra under integer affine maps, "
         "every labelled tetrahedral complex on <=5 vertices + classes on 6; x coordinate alphabets (moment curve, "
@@ -49,6 +59,10 @@ RULE = ("inputs: every labelled oriented manifold triangle complex on <=5 vertic
         "x units of length {1, 2^-20, 2^20}; x histories request / in-place deformation / request again; every strictly "
         "convex lattice polygon of the 4x4 grid (one per symmetry class) x 3 affine maps x every listing rotation x both orientations; "
         "x argument forms: every option vector with one option omitted / all omitted / the first k options positional, on 4 surfaces and 2 volumes. "
+        "x placements far from the origin p -> 2^j p + (2^k, -2^k, 2^(k-1)), (k, j) in {(30, 0), (24, -10)} (thorough: + (34, 0), (27, -10)), on every "
+        "specimen whose coordinates stay exact floats (as partners of every partners task, full option cross product on the unit-of-length "
+        "meshes, constant interpolation); x result objects kept by the caller: every attribute object a history leaves on the blackboard is "
+        "re-read after every later call of the history (BFS over request orders; request / deformation or similarity in place / request again). "
         "A case = one (mesh, coordinates, phase, option vector / partner / blackboard state); non-trivial = the mesh "
         "has at least one non-degenerate face or cell")
 ASSUMPTIONS = [
@@ -62,6 +76,8 @@ ASSUMPTIONS = [
     "mesh.edges / volume mesh.faces are taken from the library (construction is C02/C03's subject); their SET is checked against the face/cell list",
     "after an in-place deformation only explicit calls are judged, and a quantity that the library derives from other stored attributes (cotangent from 'angles', cotan_weights from 'cotan', angle_defects from 'angles', vertex_normals from face 'normals', sums and means from 'area' / 'volume') only after those were requested again; the new coordinates are read back from the mesh (transform.* itself is not C07's subject); default config.display_duplicate_attribute_warning only",
     "documented defaults and parameter order = the signatures of the unchanged tree, pinned in DOC_SIGNATURE (where the prose of a docstring contradicts its own signature - dense of border_normals / triangle_aspect_ratio, name of face_circumcenter - the signature is taken); an omitted option means its documented default (same raise / returned storage class / place where it is stored / values / blackboard as the explicit call), options may be passed positionally in the documented order; which storage class a value of `dense` selects is not judged",
+    "far from the origin: only specimens whose coordinates are exactly representable after the map (integer / dyadic coordinates; icosahedron, torus are filtered and counted); offsets up to 2^30 (thorough 2^34) with sizes down to ~1e-2, i.e. distance / size <= ~2e10 (beyond it face_area of faces with >= 5 corners, which fans the polygon around an absolutely positioned barycentre, is itself no longer right to 1e-9: 5e-11 at 2^40, 3e-6 at 2^36 / 4096; stated bound, handed over as a finding); a POINT far from the origin is compared up to 1e-9 x (size of the mesh) + 64 spacings of the floating point numbers at that distance, scalars and directions with the usual relative 1e-9",
+    "a result object returned by a call (and every by-product it stores on the mesh) belongs to the caller: later calls of the history leave it bit-identical (default config.display_duplicate_attribute_warning only). Pinned as observed: cotangent(persistent=True) refills the attribute already stored under its name - same values (1e-9) while the geometry is unchanged or moved by a similarity, not judged after another deformation. Results displaced from the blackboard stay kept. Edits of a kept result by the CALLER followed by further library calls are not explored (a stored attribute is documented input of the derived quantities)",
     "units of length are powers of two (2^-20, 2^20) so that the scaled coordinates are exact; face_barycenter = mean of the corners (as documented), polygon area of a planar convex polygon = shoelace / vector area",
 ]
 BOUNDS = {
@@ -69,8 +85,10 @@ BOUNDS = {
              "units 2^-20 and 2^20: as two more partners of every partners task (surfaces and volumes), full option cross product vs oracle on the class representatives n<=5 (generic) + 11 ZOO meshes and on every TET representative (generic), constant interpolation in both units on every interp mesh (empty blackboard); "
              "deformation histories (3 deformations: scale_xyz(2,1,1/2), scale_xyz(1,4,1), last vertex moved by (1,-2,3)) x {one function alone, every function} on the 31 BFS meshes + 3 generic-quad grids and on the TET representatives n>=5; "
              "convex lattice polygons of the 4x4 grid: all 89 quad classes, the 5 pentagon/hexagon classes of the 3x3 grid and every 4th other class (126 shapes), each under 3 affine maps (all 2k listings under one, 2 under the others) alone and glued to a triangle; ZOO also contains trapezoid / irregular-quad grids; "
+             "far from the origin: placements (k, j) = (30, 0) and (24, -10) as two more partners of every partners task (surfaces and volumes; inexact specimens filtered), full option cross product vs oracle on the unit-of-length meshes (class representatives n<=5 generic + 11 ZOO) and on every TET representative (generic), constant interpolation under one of the two placements per task in rotation, the first listing (alone and glued) of every convex lattice polygon under one placement per shape in rotation; "
+             "kept result objects: re-read after every event of the blackboard BFS (depth 2; volumes depth 3), after every re-call of the deformation histories, and in the histories 'every quantity; transform.scale(3) | transform.translate((8,-16,32)); every quantity again' on every deform / vol_deform mesh; "
              "argument forms: 23 functions with options (60 pinned defaults) + 7 without, on a bordered and a closed triangulation (5 vertices), a mixed tri/quad grid, a sheared cube, 2 tetrahedral meshes: full cross product of {default, other values} per option explicitly, each option omitted in every combination of the others, all omitted, every positional prefix over the {default, first other value} vectors; signatures compared with the pinned table",
-    "thorough": "quick + full option cross product on every labelled SURF n<=5 x 3 alphabets; all labelled SURF(6) triangle complexes (12934) x {generic, lattice} and all labelled TET(6) (2422) x {generic, moment} against the oracle (default options); partners with all 24 x 2 rigid motions on every alphabet and larger ZOO; blackboard BFS depth 3 on all class representatives (volumes: depth 4); 5 blackboard pre-states for interpolation; unit-of-length option cross product on all class representatives x {generic, lattice}, both units x 2 pre-states for interpolation, TET x {generic, moment}; deformation histories on all BFS meshes of the tier; all 219 convex lattice polygon classes of the 4x4 grid; argument forms as in quick",
+    "thorough": "quick + full option cross product on every labelled SURF n<=5 x 3 alphabets; all labelled SURF(6) triangle complexes (12934) x {generic, lattice} and all labelled TET(6) (2422) x {generic, moment} against the oracle (default options); partners with all 24 x 2 rigid motions on every alphabet and larger ZOO; blackboard BFS depth 3 on all class representatives (volumes: depth 4); 5 blackboard pre-states for interpolation; unit-of-length option cross product on all class representatives x {generic, lattice}, both units x 2 pre-states for interpolation, TET x {generic, moment}; deformation histories on all BFS meshes of the tier; all 219 convex lattice polygon classes of the 4x4 grid; argument forms as in quick; far from the origin: four placements (2^30, 2^24/1024, 2^34, 2^27/1024) everywhere, two of the four per interp task in rotation; kept result objects on BFS depth 3 (volumes 4) and all deform meshes of the tier",
 }
 
 ALPHAS = ("lattice", "generic", "moment")
@@ -185,6 +203,7 @@ ZOO_PARTNERS_QUICK = ZOO_KEY + ZOO_GENERIC + ("grid3x3quad:id", "grid2x3tri:shea
 def tasks(tier):
     out = [{"phase": "selftest"}, {"phase": "notched"}]
     thorough = tier == "thorough"
+    far = _far_of(tier)
     reps = _surf_reps()
     zoo_list = _surf_zoo(tier)
     zoo = {m[0]: m for m in zoo_list}
@@ -209,10 +228,11 @@ def tasks(tier):
             if n == 6 and alpha != "generic" and not thorough:
                 continue
             rl = "all" if (n <= 5 and (alpha == "generic" or thorough)) else "transpositions"
-            out.append({"phase": "partners", "mesh": _desc(nm, alpha, n, fl), "n": n, "relabel": rl, "motions": motions})
+            out.append({"phase": "partners", "mesh": _desc(nm, alpha, n, fl), "n": n, "relabel": rl, "motions": motions, "far": far})
     for m in zoo_list:
         if (thorough and len(m[1]) <= 24) or m[0] in ZOO_PARTNERS_QUICK:
-            out.append({"phase": "partners", "mesh": m, "n": len(m[1]), "relabel": "transpositions" if len(m[1]) <= 8 else "few", "motions": motions})
+            out.append({"phase": "partners", "mesh": m, "n": len(m[1]), "relabel": "transpositions" if len(m[1]) <= 8 else "few", "motions": motions,
+                        "far": far})
     # ---- blackboard BFS (both values of config.display_duplicate_attribute_warning)
     depth = 3 if thorough else 2
     bfs_reps = [r for r in reps if r[1] in (4, 5)] + [r for i, r in enumerate(r for r in reps if r[1] == 6) if thorough or i % 3 == 0]
@@ -225,15 +245,17 @@ def tasks(tier):
     interp_in = [_desc(nm, "generic", n, fl) for nm, n, fl in reps if thorough or n <= 5 or int(nm.split("c")[1]) % 4 == 0] + \
                 [zoo[k] for k in ZOO_KEY[:5] + ("grid3x3quad:id", "annulus3p", "truncated_octahedron:id")]
     interp_in += [zoo[k] for k in ZOO_GENERIC]
-    for b in _batches(interp_in, 2):
+    for ib, b in enumerate(_batches(interp_in, 2)):
+        # far placements: two of the four per task (thorough) / one of the two per task (quick), in rotation
         out.append({"phase": "interp", "meshes": b, "prestates": 5 if thorough else 3, "units": list(UNIT_EXPONENTS),
-                    "unit_prestates": 2 if thorough else 1})
+                    "unit_prestates": 2 if thorough else 1,
+                    "far": [far[(2 * ib + q) % len(far)] for q in range(2)] if thorough else [far[ib % len(far)]]})
     # ---- unit of length: the full option cross product on the same meshes expressed in the units 2^-20 and 2^20
     unit_in = [_desc(nm, "generic", n, fl) for nm, n, fl in reps if thorough or n <= 5] + [zoo[k] for k in ZOO_KEY + ZOO_GENERIC]
     if thorough:
         unit_in += [_desc(nm, "lattice", n, fl) for nm, n, fl in reps]
     for b in _batches(unit_in, 3):
-        out.append({"phase": "opts", "meshes": b, "units": list(UNIT_EXPONENTS), "clause": "unit_of_length"})
+        out.append({"phase": "opts", "meshes": b, "units": list(UNIT_EXPONENTS), "clause": "unit_of_length", "far": far})
     # ---- histories on one mesh object: request, deform in place, request again
     for m in bfs_in + [zoo[k] for k in ZOO_GENERIC]:
         out.append({"phase": "deform", "mesh": m})
@@ -241,7 +263,7 @@ def tasks(tier):
     shapes = _convex_shapes(tier)
     nb = 16 if thorough else 8
     for i in range(nb):
-        out.append({"phase": "convex", "shapes": shapes[i::nb]})
+        out.append({"phase": "convex", "shapes": shapes[i::nb], "far": far})
     # ---- default values and argument forms (options omitted / passed positionally) + the pinned signatures
     out.append({"phase": "defaults", "what": "signature"})
     byname = {r[0]: r for r in reps}
@@ -264,7 +286,7 @@ def tasks(tier):
             if n == 6 and alpha == "moment" and not thorough:
                 continue
             out.append({"phase": "vol_partners", "mesh": (f"{nm}:{alpha}", L.pts_to_json(L.coords(alpha, n)), [list(c) for c in cl]),
-                        "n": n, "relabel": "all" if n <= 5 else "transpositions", "motions": motions})
+                        "n": n, "relabel": "all" if n <= 5 else "transpositions", "motions": motions, "far": far})
     for nm, n, cl in _tet_reps():
         if n >= 5:
             out.append({"phase": "vol_bfs", "mesh": (f"{nm}:generic", L.pts_to_json(L.coords("generic", n)), [list(c) for c in cl]),
@@ -272,7 +294,7 @@ def tasks(tier):
     for alpha in (("generic", "moment") if thorough else ("generic",)):
         items = [(f"{nm}:{alpha}", L.pts_to_json(L.coords(alpha, n)), [list(c) for c in cl]) for nm, n, cl in _tet_reps()]
         for b in _batches(items, 6):
-            out.append({"phase": "vol_opts", "meshes": b, "units": list(UNIT_EXPONENTS), "clause": "unit_of_length"})
+            out.append({"phase": "vol_opts", "meshes": b, "units": list(UNIT_EXPONENTS), "clause": "unit_of_length", "far": far})
         for it in items:
             if len(it[1]) >= 5:
                 out.append({"phase": "vol_deform", "mesh": it})
@@ -335,8 +357,8 @@ class Collector:
     def fail(self, subcheck, callee, kind, opts, detail):
         self.calls_failed += 1
         # a case that is already wrong in the base unit of length is not a unit-of-length defect: reported once, by its own clause
-        k0 = (callee, _okey({k: v for k, v in opts.items() if k != "unit"}))
-        if opts.get("unit") in (None, "2^0"):
+        k0 = (callee, _okey({k: v for k, v in opts.items() if k not in ("unit", "placement")}))
+        if opts.get("unit") in (None, "2^0") and opts.get("placement") is None:
             self.wrong_in_base_unit.add(k0)
         elif k0 in self.wrong_in_base_unit:
             return
@@ -503,11 +525,25 @@ def surf_want(geo, fname, i, opts):
     raise KeyError(fname)
 
 
+def _vclose_abs(got, want, tol):
+    try:
+        g = [float(x) for x in got]; w = [float(x) for x in want]
+    except Exception:
+        return False
+    return len(g) == len(w) and not any(x != x for x in g) and max(abs(a - b) for a, b in zip(g, w)) <= tol
+
+
+def _pt_close(geo, got, want):
+    """points: relative to the largest coordinate; for a mesh placed far from the origin (geo.pt_tol set) relative to its SIZE"""
+    tol = getattr(geo, "pt_tol", None)
+    return L.vclose(got, want, unit=geo.M) if tol is None else _vclose_abs(got, want, tol)
+
+
 def _compare(vtype, dim, geo, got, want):
     if vtype == "s":
         return L.close(got, want, unit=geo.L ** dim)
     if vtype == "pt":
-        return L.vclose(got, want, unit=geo.M)
+        return _pt_close(geo, got, want)
     return L.vclose(got, want, unit=1.0)
 
 
@@ -618,7 +654,7 @@ def check_surface_globals(col, M, m, geo, rep, extra=None, rebuild=None, only=No
             return
         rep.evaluations += 1
         got = _py(o.value)
-        good = L.vclose(got, want, unit=unit) if vec else L.close(got, want, unit=unit)
+        good = _pt_close(geo, got, want) if vec else L.close(got, want, unit=unit)
         if not good:
             col.fail(f"C07.{fname}.{clause}", fname, "mismatch:value", opts, {"got": got, "want": want})
         rep.outcome(fname, repr(got)[:40])
@@ -662,32 +698,109 @@ def _unit_tag(e):
     return {} if e is None else {"unit": "2^%d" % e}
 
 
+# FAR FROM THE ORIGIN: the same mesh under p -> 2^j p + (2^k, -2^k, 2^(k-1)). A translation is a rigid motion: every
+# quantity of the statement is unchanged (points move with the mesh), whatever the ratio distance-to-origin / size is.
+# Only specimens whose coordinates stay EXACT binary floating point numbers under the map are placed (exact predicate,
+# the others are counted): the oracle and the library then see the same geometry and every difference of two
+# coordinates is exact, so a formula built on edge vectors loses nothing, while one built on products of positions
+# loses log2((distance/size)^2) bits. (k, j): 2^30 with the integer coordinates as they are (products of two positions
+# exceed 2^53); 2^24 with the coordinates divided by 1024 (fractional coordinates, size ~ 1e-2 .. 1e-1).
+FAR_QUICK = ((30, 0), (24, -10))
+FAR_THOROUGH = FAR_QUICK + ((34, 0), (27, -10))
+# BOUND distance / size <= ~2e10. Beyond it the pinned tree itself stops being right to 1e-9 for faces with >= 5 corners:
+# face_area fans the polygon around its barycentre taken as an ABSOLUTE position (sum(pts)/n), whose rounding (one float
+# spacing at that distance) enters the area to second order: relative error ~ (spacing / size)^2 = 5e-11 at (40, 0), 3e-6
+# at (36, -12), 1e-8 at (44, 0) on a pentagon of size 15 (triangles, quads, volumes stay exact). Handed over as a finding
+# (fix: fan the polygon in coordinates relative to one of its corners); with the fix (40, 0) and (36, -12) can be added here.
+FAR_ULPS = 64        # a point far from the origin is compared up to 1e-9 x size + FAR_ULPS spacings of the floats at that distance
+
+
+def _far_of(tier):
+    return [list(x) for x in (FAR_THOROUGH if tier == "thorough" else FAR_QUICK)]
+
+
+def _far_vector(k):
+    return (2 ** k, -(2 ** k), 2 ** (k - 1))
+
+
+def _far_label(k, j):
+    return "T2^%d:x2^%d" % (k, j)
+
+
+def _far_pts(pts, k, j):
+    """the points under p -> 2^j p + T_k as floats, or None if one coordinate is not exactly representable"""
+    T, s = _far_vector(k), X.Fr(2) ** j
+    out = []
+    for p in pts:
+        row = []
+        for x, t in zip(p, T):
+            q = X.Fr(x) * s + t
+            f = float(q)
+            if X.Fr(f) != q:
+                return None
+            row.append(f)
+        out.append(row)
+    return out
+
+
+def _far_pt_tol(geo):
+    """absolute tolerance on a point of a mesh placed far from the origin: relative to the SIZE of the mesh, plus a few
+    spacings of the floating point numbers at that distance (no float formula can do better)"""
+    return REL_FAR * geo.L + FAR_ULPS * geo.M * 2.0 ** -52
+
+
+REL_FAR = 1e-9
+
+
+def _placements(task):
+    """[None] (the mesh as given), or the base placement followed by the other units of length and the far placements"""
+    if not (task.get("units") or task.get("far")):
+        return [None]
+    return [("unit", 0)] + [("unit", int(e)) for e in task.get("units") or []] + [("far", int(k), int(j)) for k, j in task.get("far") or []]
+
+
+def _place(pts, pl):
+    """(points, option tag, detail context, clause or None) of a placement; points None = not exactly representable"""
+    if pl is None:
+        return pts, {}, {}, None
+    if pl[0] == "unit":
+        e = pl[1]
+        return _unit_pts(pts, e), _unit_tag(e), {"points_multiplied_by": 2.0 ** e}, None
+    _, k, j = pl
+    return _far_pts(pts, k, j), {"placement": _far_label(k, j)}, {"points_multiplied_by": 2.0 ** j, "then_translated_by": [float(t) for t in _far_vector(k)]}, "far_from_origin"
+
+
 def run_opts(task, rep: Report):
     """Full option cross product against the oracle. With task['units'] (exponents e) the whole cross product is repeated
     on the same mesh with every coordinate multiplied by 2^e (clause 'unit_of_length': lengths x s, areas x s^2, angles,
     cotangents, normals, degrees unchanged - the oracle is evaluated on the scaled coordinates)."""
     import mouette as M
-    units = ([0] + list(task["units"])) if task.get("units") else [None]
-    clause = task.get("clause", "definition")
     for desc in task["meshes"]:
         desc = (desc[0], desc[1], [tuple(f) for f in desc[2]])
         col = None
-        for e in units:
-            d = desc if e is None else (desc[0], _unit_pts(desc[1], e), desc[2])
-            tag = _unit_tag(e)
+        for pl in _placements(task):
+            ppts, tag, ctx, pclause = _place(desc[1], pl)
+            if ppts is None:
+                rep.count("far_filtered_inexact_coordinates"); continue
+            clause = pclause or task.get("clause", "definition")
+            d = (desc[0], ppts, desc[2])
             m0 = _build_surface(d)
             geo = _geo_of(m0, d, rep)
             if geo is None:
                 continue
             if col is None:
                 col = Collector(rep, _mclass(geo), {"mesh": desc[0], "points": desc[1], "faces": [list(f) for f in desc[2]]})
-            col.baseline = (e == 0)        # base unit inside a unit-of-length task: only remembers what is wrong there already
-            col.ctx = {} if e is None else {"points_multiplied_by": 2.0 ** e}
+            col.baseline = (pl == ("unit", 0))        # base placement inside a unit-of-length / far task: only remembers what is wrong there already
+            col.ctx = ctx
             rep.traces += 1
             rep.flag("closed" if geo.closed else "bordered")
             rep.flag("class:" + _mclass(geo).split(":")[0])
-            if e:
-                rep.flag("unit:2^%d" % e)
+            if pl and pl[0] == "unit" and pl[1]:
+                rep.flag("unit:2^%d" % pl[1])
+            if pl and pl[0] == "far":
+                geo.pt_tol = _far_pt_tol(geo)
+                rep.flag("far:" + tag["placement"]); rep.count("far_opts_meshes")
+                rep.flag("far_class:" + _mclass(geo).split(":")[0])
             if geo.nondegenerate():
                 rep.case(("opts", d[1], desc[2]))
             shared = m0
@@ -767,11 +880,13 @@ def _transform_value(vtype, dim, val, R, s, t):
     raise KeyError(vtype)
 
 
-def _close_value(vtype, dim, got, want, L_, M_):
+def _close_value(vtype, dim, got, want, L_, M_, pt_tol=None):
     if vtype == "s":
         return L.close(got, want, unit=L_ ** dim)
     if vtype == "mat":
         return L.vclose([x for r in got for x in r], [x for r in want for x in r], unit=1.0)
+    if vtype == "pt" and pt_tol is not None:
+        return _vclose_abs(got, want, pt_tol)
     return L.vclose(got, want, unit=M_ if vtype == "pt" else 1.0)
 
 
@@ -853,7 +968,7 @@ def compare_partner(col, rep, clause, base, part, gb, gp, perm, R, s, t, tag):
             want = _transform_value(vtype, dim, bv, R, s, t)
             got = p[maps[cont][i]]
             rep.evaluations += 1
-            if not _close_value(vtype, dim, got, want, gp.L, gp.M):
+            if not _close_value(vtype, dim, got, want, gp.L, gp.M, getattr(gp, "pt_tol", None)):
                 col.fail(sub, fname, "mismatch:value", opts, {"element": i, "partner_element": maps[cont][i], "partner_value": got,
                                                               "transformed_base_value": want, "base_value": bv})
                 break
@@ -871,7 +986,7 @@ def compare_partner(col, rep, clause, base, part, gb, gp, perm, R, s, t, tag):
         if gname in ("total_area", "mean_face_area") and not all(gb.face(f)["ok"] for f in range(gb.nf)):
             continue
         rep.evaluations += 1
-        if not _close_value(vtype, dim, p, _transform_value(vtype, dim, b, R, s, t), gp.L, gp.M):
+        if not _close_value(vtype, dim, p, _transform_value(vtype, dim, b, R, s, t), gp.L, gp.M, getattr(gp, "pt_tol", None)):
             col.fail(f"C07.{gname}.{clause}", gname, "mismatch:value", opts, {"base_value": b, "partner_value": p})
 
 
@@ -913,6 +1028,8 @@ def run_partners(task, rep: Report):
         g2 = _geo_of(m2, d2, rep)
         if g2 is None:
             return
+        if clause == "far_from_origin":
+            g2.pt_tol = _far_pt_tol(g2)
         part = collect_surface(M, m2, g2, rep)
         rep.traces += 1
         rep.case(("partner", pts, faces, clause, tag))
@@ -929,6 +1046,13 @@ def run_partners(task, rep: Report):
         s = X.Fr(2) ** e
         partner("unit_of_length", f"U{e}", L.transform_points(pts, IDENT, s, (0, 0, 0)), faces, ident, IDENT, s, (0, 0, 0))
         rep.flag("unit:2^%d" % e)
+    for k, j in task.get("far") or []:      # the same mesh far from the origin (a translation, after an exact change of unit)
+        s, t = X.Fr(2) ** j, _far_vector(k)
+        P2 = L.transform_points(pts, IDENT, s, t)
+        if any(X.Fr(float(x)) != x for p in P2 for x in p):
+            rep.count("far_filtered_inexact_coordinates"); continue
+        partner("far_from_origin", _far_label(k, j), P2, faces, ident, IDENT, s, t)
+        rep.flag("far_partner:" + _far_label(k, j)); rep.count("far_partner_meshes")
     for perm in _relabelings(n, task["relabel"]):
         P2 = [None] * n
         for v in range(n):
@@ -939,6 +1063,79 @@ def run_partners(task, rep: Report):
     faces3 = [tuple(f[1:] + f[:1]) for f in reversed(faces)]
     partner("renumbering", "faces_relisted", [tuple(p) for p in pts], faces3, ident, IDENT, 1, (0, 0, 0))
     col.flush()
+
+
+# ================================================================================================ kept result objects
+# OWNERSHIP OF RESULTS. A returned attribute object holds the values of the call that returned it for as long as the
+# caller keeps it: a later call (the same function with other options, another function, the same function after the
+# mesh was edited) answers in its OWN result and leaves every earlier result alone. Every other clause reads a result
+# immediately after the call that made it; here every attribute object that a history has put on the blackboard (the
+# objects returned by the persistent calls and the by-products they store) is kept with the values it had when first
+# seen, and re-read after every later call of the history.
+BB_CONTAINERS = ("vertices", "edges", "faces", "face_corners", "cells")
+CACHE_ATTRS = ("border", "hard_edges")         # lazily built connectivity caches stored as attributes: C01's subject
+# pinned as observed: cotangent(persistent=True) refills the attribute already stored under its name instead of replacing
+# it. Invisible while the geometry is unchanged or moved by a similarity (cotangents are invariant); after another
+# deformation the kept object holds the new cotangents, which the statement does not forbid: not judged there.
+REFILLED_IN_PLACE = (("face_corners", "cotan"),)
+
+
+def _keep_results(m, kept):
+    """adds every attribute object now on the blackboard of m and not kept yet: id -> (container, name, object, values now, n)"""
+    for cn in BB_CONTAINERS:
+        cont = getattr(m, cn, None)
+        if cont is None:
+            continue
+        for name in sorted(cont._attr):
+            a = cont._attr[name]
+            if name in CACHE_ATTRS or id(a) in kept:
+                continue
+            r = call(_read, a, len(cont))
+            if r.ok:
+                kept[id(a)] = (cn, name, a, r.value, len(cont))
+
+
+def _same_kept(was, now, exact):
+    """an untouched object reads back IDENTICAL values (NaN = NaN); the attribute that the library refills in place
+    (dimensionless cotangents, possibly through its other formula) reads back the same values up to 1e-9 relative + 1e-12"""
+    def flat(x):
+        return [z for y in x for z in flat(y)] if isinstance(x, (list, tuple)) else [x]
+    a, b = flat(was), flat(now)
+    if len(a) != len(b):
+        return False
+    for x, y in zip(a, b):
+        if type(x) != type(y):
+            return False
+        if x == y or (x != x and y != y):
+            continue
+        if exact or not isinstance(x, float) or not abs(x - y) <= 1e-9 * max(abs(x), abs(y)) + 1e-12:
+            return False
+    return True
+
+
+def _check_kept(rep, done, kept, cls, later, history_kind, detail, exempt=()):
+    """every kept object still holds the values it held when first seen; a changed object is reported once (coarse
+    fingerprint: whose result / which later call / which kind of history) and dropped"""
+    producers = {v: k for k, v in STORED.items()}
+    for key in sorted(kept, key=lambda k: kept[k][:2]):
+        cn, name, a, was, n = kept[key]
+        if (cn, name) in exempt:
+            continue
+        rep.evaluations += 1
+        rep.count("kept_results_reread")
+        r = call(_read, a, n)
+        if r.ok and _same_kept(list(was), list(r.value), exact=(cn, name) not in REFILLED_IN_PLACE):
+            continue
+        del kept[key]
+        producer = producers.get((cn, name), f"{cn}.{name}")
+        fp = (producer, later, history_kind)
+        if fp in done:
+            continue
+        done.add(fp)
+        rep.violation(f"C07.{producer}.result_kept", "attributes." + later, "side_effect:earlier_result_changed",
+                      f"{cls}:{'same_function' if producer == later else 'other_function'}:{history_kind}",
+                      dict(detail, kept_attribute=f"{cn}.{name}", values_when_returned=[list(x) if isinstance(x, tuple) else x for x in was],
+                           values_now=[list(x) if isinstance(x, tuple) else x for x in r.value] if r.ok else "unreadable:" + str(r.exc)))
 
 
 # ================================================================================================ phase: bfs
@@ -1049,19 +1246,27 @@ def _run_bfs(M, desc, geo, col, rep, dup, depth):
         else:
             call(getattr(A, fname), m, **opts)
 
-    def rebuild(hist):
+    def rebuild(hist, kept=None):
         m = _build_surface(desc)
         for ev in hist:
             apply_event(m, ev, False, None)
+            if kept is not None:
+                _keep_results(m, kept)
         return m
+
+    kept_done = set()
+    kcls = "surf" + (":duplicate_attribute_flag" if dup else "")
+    base_detail = {"mesh": name, "points": pts, "faces": [list(f) for f in faces]}
 
     if not dup:
         # re-requests of the quantities nobody else reads (default config: the attribute is silently replaced)
         for ev in SELF_EVENTS:
             if geo.tri or not _spec_tri_only(ev[0]):
-                m = rebuild((ev,))
+                kept = {}
+                m = rebuild((ev,), kept)
                 apply_event(m, ev, True, [[ev[0], ev[1]]] * 2)
                 rep.transitions += 1
+                _check_kept(rep, kept_done, kept, kcls, ev[0], "same_geometry", dict(base_detail, history=[[ev[0], ev[1]]] * 2))
     k0 = _bb_key(_build_surface(desc))[0]
     seen = {k0: ()}
     queue = [()]
@@ -1106,9 +1311,13 @@ def _run_bfs(M, desc, geo, col, rep, dup, depth):
         if len(hist) >= expand_depth:
             continue
         for ev in events:
-            m = rebuild(hist)
+            kept = {}
+            m = rebuild(hist, kept)
             apply_event(m, ev, True, hlist + [[ev[0], ev[1]]])
             rep.transitions += 1
+            if kept:        # the results of the earlier calls of the history, re-read after this one
+                rep.flag("kept_after:" + ev[0])
+                _check_kept(rep, kept_done, kept, kcls, ev[0], "same_geometry", dict(base_detail, history=hlist + [[ev[0], ev[1]]]))
             k = _bb_key(m)[0]
             if k not in seen:
                 seen[k] = hist + (ev,)
@@ -1169,12 +1378,18 @@ def run_interp(task, rep: Report):
         prestates = PRESTATES[:int(task.get("prestates", 5))] if int(task.get("prestates", 5)) != 3 else (PRESTATES[0], PRESTATES[2], PRESTATES[4])
         unit_prestates = int(task.get("unit_prestates", 1))      # the other units of length are crossed with the first k blackboard pre-states
         for ip, pre in enumerate(prestates):
-          for e in [0] + (list(task.get("units") or []) if ip < unit_prestates else []):
+          for pl in (_placements(task) if ip < unit_prestates else [("unit", 0)]):
+            pl = pl or ("unit", 0)
             names = None
-            upts = _unit_pts(desc[1], e)
+            upts, ptag, pctx, pclause = _place(desc[1], pl)
+            if upts is None:
+                rep.count("far_filtered_inexact_coordinates"); continue
+            e = pl[1] if pl[0] == "unit" else None
             udesc = (desc[0], upts, desc[2])
             if e:
                 rep.flag("interp_unit:2^%d" % e)
+            if pclause:
+                rep.flag("interp_far:" + ptag["placement"])
             for fname, src, dst, weights, mult in plan:
                 for w in weights:
                     for cname, const in CONSTS.items():
@@ -1188,16 +1403,17 @@ def run_interp(task, rep: Report):
                                 size = 3 if cname == "vector" else 1
                                 a_in = _mk_attr(M, din, sizes[src], size); _fill(M, a_in, sizes[src], const)
                                 a_out = _mk_attr(M, dout, sizes[dst], size)
-                                opts = {"weight": w, "value": cname, "in_dense": din, "out_dense": dout, "unit": "2^%d" % e,
-                                        "has_area": ("faces", "area") in names, "has_angles": ("face_corners", "angles") in names}
+                                opts = dict({"weight": w, "value": cname, "in_dense": din, "out_dense": dout,
+                                             "has_area": ("faces", "area") in names, "has_angles": ("face_corners", "angles") in names}, **ptag)
                                 args = (m, a_in, a_out) + ((w,) if w is not None else ())
-                                col.ctx = {"points_multiplied_by": 2.0 ** e} if e else {}
+                                col.ctx = pctx if (e or pclause) else {}
                                 for reuse in (False, True):
                                     o2 = dict(opts, reused_output=reuse)
                                     col.run(fname, o2)
                                     o = call(getattr(A, fname), *args)
                                     rep.transitions += 1
-                                    sub = "C07.interpolate.unit_of_length" if e else "C07.interpolate.reused_output" if reuse else "C07.interpolate.constant"
+                                    sub = "C07.interpolate.far_from_origin" if pclause else "C07.interpolate.unit_of_length" if e else \
+                                        "C07.interpolate.reused_output" if reuse else "C07.interpolate.constant"
                                     if not o.ok:
                                         col.fail(sub, fname, exc_kind(o), o2, {"msg": o.msg}); break
                                     r = call(_read, o.value if o.value is not None else a_out, sizes[dst])
@@ -1211,7 +1427,7 @@ def run_interp(task, rep: Report):
                                         if not good:
                                             col.fail(sub, fname, "mismatch:value", o2, {"element": i, "got": got, "want": want}); break
                                     rep.outcome(fname, repr(r.value[0])[:40] if r.value else "empty")
-            rep.case(("interp", desc[1], desc[2], pre, e))
+            rep.case(("interp", desc[1], desc[2], pre, pl))
         rep.traces += 1
         col.flush()
 
@@ -1306,7 +1522,7 @@ def check_volume_globals(col, M, m, g, rep, extra=None, rebuild=None, clause="de
             return
         rep.evaluations += 1
         got = _py(o.value)
-        if not (L.vclose(got, want, unit=unit) if vec else L.close(got, want, unit=unit)):
+        if not (_pt_close(g, got, want) if vec else L.close(got, want, unit=unit)):
             col.fail(f"C07.{fname}.{clause}", fname, "mismatch:value", opts, {"got": got, "want": want})
     run("barycenter", {}, lambda: A.barycenter(m), L.fl(X.barycenter(g.P)), g.M, vec=True)
     ne, nf = len(g.edges), len(g.faces)
@@ -1325,19 +1541,23 @@ def check_volume_globals(col, M, m, g, rep, extra=None, rebuild=None, clause="de
 
 def run_vol_opts(task, rep: Report, default_only=False):
     import mouette as M
-    units = ([0] + list(task["units"])) if task.get("units") else [None]
-    clause = task.get("clause", "definition")
     for desc in task["meshes"]:
         col = Collector(rep, "tet", {"mesh": desc[0], "points": desc[1], "cells": desc[2]})
-        for e in units:
-            d = desc if e is None else (desc[0], _unit_pts(desc[1], e), desc[2])
-            tag = _unit_tag(e)
+        for pl in _placements(task):
+            ppts, tag, ctx, pclause = _place(desc[1], pl)
+            if ppts is None:
+                rep.count("far_filtered_inexact_coordinates"); continue
+            clause = pclause or task.get("clause", "definition")
+            d = (desc[0], ppts, desc[2])
             m0 = _build_volume(d)
             g = _vgeo_of(m0, d, rep)
             if g is None:
                 continue
-            col.baseline = (e == 0)
-            col.ctx = {} if e is None else {"points_multiplied_by": 2.0 ** e}
+            col.baseline = (pl == ("unit", 0))
+            col.ctx = ctx
+            if pl and pl[0] == "far":
+                g.pt_tol = g.S.pt_tol = _far_pt_tol(g)
+                rep.flag("vol_far:" + tag["placement"]); rep.count("far_vol_meshes")
             rep.traces += 1
             if all(g.vol6(c) != 0 for c in range(g.nc)):
                 rep.case(("vol", d[1], desc[2]))
@@ -1397,6 +1617,7 @@ def run_vol_partners(task, rep: Report):
         g2 = _vgeo_of(m2, d2, rep)
         if g2 is None:
             return
+        ptol = _far_pt_tol(g2) if clause == "far_from_origin" else None
         part = collect_volume(M, m2, g2, rep)
         rep.traces += 1
         rep.case(("vpartner", pts, cells, clause, tag))
@@ -1419,7 +1640,7 @@ def run_vol_partners(task, rep: Report):
                 want = _transform_value(vtype, dim, b[i], R, s, t)
                 got = p[maps[cont][i]]
                 rep.evaluations += 1
-                if not _close_value(vtype, dim, got, want, g2.L, g2.M):
+                if not _close_value(vtype, dim, got, want, g2.L, g2.M, ptol):
                     col.fail(sub, fname, "mismatch:value", opts, {"element": i, "partner_value": got, "transformed_base_value": want,
                                                                   "partner_points": d2[1], "partner_cells": [list(c) for c in cells2]})
                     break
@@ -1433,7 +1654,7 @@ def run_vol_partners(task, rep: Report):
                     col.fail(f"C07.{gname}.{clause}", gname, "mismatch:raise", opts, {"base": b, "partner": p})
                 continue
             rep.evaluations += 1
-            if not _close_value(vtype, dim, p, _transform_value(vtype, dim, b, R, s, t), g2.L, g2.M):
+            if not _close_value(vtype, dim, p, _transform_value(vtype, dim, b, R, s, t), g2.L, g2.M, ptol):
                 col.fail(f"C07.{gname}.{clause}", gname, "mismatch:value", opts, {"base_value": b, "partner_value": p})
 
     for ri, R in enumerate(L.rotations24()):
@@ -1445,6 +1666,13 @@ def run_vol_partners(task, rep: Report):
     for e in UNIT_EXPONENTS:
         s = X.Fr(2) ** e
         partner("unit_of_length", f"U{e}", L.transform_points(pts, IDENT, s, (0, 0, 0)), cells, ident, IDENT, s, (0, 0, 0))
+    for k, j in task.get("far") or []:
+        s, t = X.Fr(2) ** j, _far_vector(k)
+        P2 = L.transform_points(pts, IDENT, s, t)
+        if any(X.Fr(float(x)) != x for p in P2 for x in p):
+            rep.count("far_filtered_inexact_coordinates"); continue
+        partner("far_from_origin", _far_label(k, j), P2, cells, ident, IDENT, s, t)
+        rep.flag("vol_far_partner:" + _far_label(k, j))
     for perm in _relabelings(n, task["relabel"]):
         P2 = [None] * n
         for v in range(n):
@@ -1473,12 +1701,15 @@ def run_vol_bfs(task, rep: Report):
     def apply_event(m, ev):
         return call(getattr(A, ev[0]), m, **(dict(ev[1], persistent=True) if ev[0] in VSPEC else {}))
 
-    def rebuild(hist):
+    def rebuild(hist, kept=None):
         m = _build_volume(desc)
         for ev in hist:
             apply_event(m, ev)
+            if kept is not None:
+                _keep_results(m, kept)
         return m
 
+    kept_done = set()
     seen = {_bb_key(_build_volume(desc))[0]: ()}
     queue = [()]
     while queue:
@@ -1498,13 +1729,18 @@ def run_vol_bfs(task, rep: Report):
         if len(hist) >= int(task["depth"]):
             continue
         for ev in VOL_EVENTS:
-            m = rebuild(hist)
+            kept = {}
+            m = rebuild(hist, kept)
             if ev[0] in VSPEC:
                 col.ctx = {"history": [[e[0], e[1]] for e in hist + (ev,)]}
                 check_volume_function(col, M, m, g, ev[0], dict(ev[1], persistent=True, **_has_flags(ev[0], set(_bb_key(m)[1]))), rep)
             else:
                 apply_event(m, ev)
             rep.transitions += 1
+            if kept:
+                rep.flag("vol_kept_after:" + ev[0])
+                _check_kept(rep, kept_done, kept, "tet", ev[0], "same_geometry",
+                            {"mesh": desc[0], "points": desc[1], "cells": desc[2], "history": [[e[0], e[1]] for e in hist + (ev,)]})
             k = _bb_key(m)[0]
             if k not in seen:
                 seen[k] = hist + (ev,); queue.append(hist + (ev,))
@@ -1552,6 +1788,10 @@ def run_vol_labelled(task, rep: Report):
 # cotan_weights <- 'cotan', angle_defects <- 'angles', vertex_normals <- face 'normals', sums and means <- 'area') reuse
 # them by design: they are judged only after those inputs have themselves been requested again on the new geometry.
 DEFORMATIONS = [("scale_xyz", [2.0, 1.0, 0.5]), ("scale_xyz", [1.0, 4.0, 1.0]), ("move_vertex", [1.0, -2.0, 3.0])]
+# in-place SIMILARITIES (the motions and the uniform scale of the statement applied to the mesh object itself, exact on the
+# integer / dyadic coordinates): history 'every quantity; similarity; every quantity again'. The second answers are judged
+# like after any deformation; the results of the first calls, kept by the caller, must still hold the first values
+SIMILARITIES = [("scale", [3.0]), ("translate", [8.0, -16.0, 32.0])]
 PRODUCER = {("face_corners", "angles"): "corner_angles", ("face_corners", "cotan"): "cotangent",
             ("faces", "normals"): "face_normals", ("faces", "area"): "face_area"}
 INPUT_ORDER = [("face_corners", "angles"), ("face_corners", "cotan"), ("faces", "normals"), ("faces", "area")]
@@ -1572,6 +1812,10 @@ def _deform(M, m, d):
     kind, a = d
     if kind == "scale_xyz":
         M.transform.scale_xyz(m, *a)
+    elif kind == "scale":
+        M.transform.scale(m, a[0])
+    elif kind == "translate":
+        M.transform.translate(m, M.Vec(*a))
     else:                                     # one vertex moved through the container API
         v = len(m.vertices) - 1
         m.vertices[v] = m.vertices[v] + M.Vec(*a)
@@ -1617,10 +1861,15 @@ def run_deform(task, rep: Report):
         rep.case(("deform", pts, faces, d))
         return g1, p1
 
-    for d in DEFORMATIONS:
+    kept_done = set()
+    kdetail = {"mesh": name, "points": pts, "faces": [list(f) for f in faces]}
+    for d in DEFORMATIONS + SIMILARITIES:
         tag = {"deformation": d[0]}
+        similar = d in SIMILARITIES
+        hkind = "after_similarity" if similar else "after_deformation"
+        exempt = () if similar else REFILLED_IN_PLACE
         # ---- history 'solo': f; deformation; the stored inputs of f requested again; f
-        for fname in fnames:
+        for fname in (() if similar else fnames):
             for extra in _variants(fname):
                 m = _build_surface(desc)
                 o0 = dict(extra, persistent=True, dense=True)
@@ -1630,6 +1879,8 @@ def run_deform(task, rep: Report):
                 check_surface_function(scratch, M, m, geo0, fname, o0, rep)
                 if _nfails(scratch) != before:
                     rep.count("deform_not_judged_wrong_before"); continue  # wrong before any deformation: the 'definition' clause reports it
+                kept = {}
+                _keep_results(m, kept)
                 g1, p1 = geometry_after(m, d)
                 hist = [[fname, extra], list(d)]
                 inputs_ok = True
@@ -1641,6 +1892,7 @@ def run_deform(task, rep: Report):
                                                clause=CLAUSE_DEFORM)
                         hist = hist + [[PRODUCER[ca], {}]]
                         inputs_ok = inputs_ok and _nfails(col) == before
+                        _check_kept(rep, kept_done, kept, "surf", PRODUCER[ca], hkind, dict(kdetail, history=hist), exempt)
                 if not inputs_ok:
                     rep.count("deform_not_judged_input_wrong"); continue    # one defect = one fingerprint
                 col.ctx = {"history": hist + [[fname, extra]], "points_now": p1}
@@ -1648,6 +1900,7 @@ def run_deform(task, rep: Report):
                 if fname == "vertex_normals":
                     opts["custom"] = None
                 check_surface_function(col, M, m, g1, fname, opts, rep, clause=CLAUSE_DEFORM)
+                _check_kept(rep, kept_done, kept, "surf", fname, hkind, dict(kdetail, history=hist + [[fname, extra]]), exempt)
                 rep.count("deform_recalls_judged")
                 rep.traces += 1
         # ---- history 'all': every quantity; deformation; every quantity again (inputs before the quantities derived from them)
@@ -1663,14 +1916,21 @@ def run_deform(task, rep: Report):
                     check_surface_function(scratch, M, m, geo0, fname, o0, rep)
                     if _nfails(scratch) != before:
                         wrong.add(fname); rep.count("deform_not_judged_wrong_before")
+        kept = {}
+        _keep_results(m, kept)
         g1, p1 = geometry_after(m, d)
+        if similar:
+            rep.flag("similarity_history:" + d[0])
         for fname in fnames:
             for extra in _variants(fname):
+                htxt = "every quantity (persistent); %s; every quantity again, ending with %s" % (list(d), fname)
                 if fname in wrong or any(PRODUCER[ca] in wrong for ca in _inputs_of(fname)):
                     call(getattr(A, fname), m, persistent=True, **extra)
-                    rep.count("deform_not_judged_input_wrong"); continue
+                    rep.count("deform_not_judged_input_wrong")
+                    _check_kept(rep, kept_done, kept, "surf", fname, hkind, dict(kdetail, history=htxt), exempt)
+                    continue
                 before = _nfails(col)
-                col.ctx = {"history": "every quantity (persistent); %s; every quantity again, ending with %s" % (list(d), fname), "points_now": p1}
+                col.ctx = {"history": htxt, "points_now": p1}
                 opts = dict(extra, persistent=True, dense=True, history="all", **tag)
                 if fname == "vertex_normals":
                     opts["custom"] = None
@@ -1678,6 +1938,9 @@ def run_deform(task, rep: Report):
                 rep.count("deform_recalls_judged")
                 if _nfails(col) != before:
                     wrong.add(fname)
+                # the results of the calls made BEFORE the deformation, kept by the caller, re-read after this call
+                _check_kept(rep, kept_done, kept, "surf", fname, hkind, dict(kdetail, history=htxt), exempt)
+                rep.count("kept_after_deformation_checks")
         if "face_area" not in wrong:
             col.ctx = {"history": "every quantity (persistent); %s; every quantity again; global" % (list(d),), "points_now": p1}
             check_surface_globals(col, M, m, g1, rep, extra=dict(history="all", **tag), clause=CLAUSE_DEFORM,
@@ -1696,9 +1959,11 @@ def run_vol_deform(task, rep: Report):
     col = Collector(rep, "tet", {"mesh": desc[0], "points": desc[1], "cells": desc[2]})
     scratch = Collector(rep, "tet", {})
     scratch.baseline = True
-    for d in DEFORMATIONS:
+    kept_done = set()
+    for d in DEFORMATIONS + SIMILARITIES:
         tag = {"deformation": d[0]}
-        for hist in ("solo", "all"):
+        similar = d in SIMILARITIES
+        for hist in (("all",) if similar else ("solo", "all")):
             for fname in ([s[0] for s in VOL_SPECS] if hist == "solo" else [None]):
                 m = _build_volume(desc)
                 before = _nfails(scratch)
@@ -1708,6 +1973,8 @@ def run_vol_deform(task, rep: Report):
                     rep.count("deform_not_judged_wrong_before"); continue
                 if hist == "all":
                     call(A.mean_cell_volume, m); call(A.mean_face_area, m)
+                kept = {}
+                _keep_results(m, kept)
                 _deform(M, m, d)
                 p1 = _points_now(m)
                 g1 = _vgeo_of(m, (desc[0], p1, desc[2]), rep)
@@ -1722,6 +1989,11 @@ def run_vol_deform(task, rep: Report):
                     before = _nfails(col)
                     check_volume_function(col, M, m, g1, f2, dict(persistent=True, dense=True, history=hist, **tag), rep, clause=CLAUSE_DEFORM)
                     bad = bad or _nfails(col) != before
+                    _check_kept(rep, kept_done, kept, "tet", f2, "after_similarity" if similar else "after_deformation",
+                                {"mesh": desc[0], "points": desc[1], "cells": desc[2], "history": [fname or "every quantity", list(d), f2]})
+                    rep.count("vol_kept_after_deformation_checks")
+                if similar:
+                    rep.flag("vol_similarity_history:" + d[0])
                 if hist == "all" and not bad:      # the stored 'volume' / 'area' were requested again: sums and means are current
                     check_volume_globals(col, M, m, g1, rep, clause=CLAUSE_DEFORM, common=dict(history=hist, **tag))
                 rep.traces += 1
@@ -1750,6 +2022,7 @@ def run_convex(task, rep: Report):
     import mouette as M
     cols = {}
     affs = sorted(L.AFFINE)
+    far = task.get("far") or []
     for si, cyc in task["shapes"]:
         cyc = [tuple(p) for p in cyc]
         k = len(cyc)
@@ -1769,33 +2042,42 @@ def run_convex(task, rep: Report):
                             a, b, c = (X.F(base[order[j]]) for j in (0, 1, 2))
                             pts.append(tuple(int(x) for x in X.sub(X.add(a, b), c)))
                             faces.append((order[1], order[0], k))
-                        desc = (f"convex{k}gon#{si % 1000}:{aff}:listing{rot}{'+' if orient > 0 else '-'}{':glued' if glue else ''}",
-                                L.pts_to_json(pts), faces)
-                        m = _build_surface(desc)
-                        geo = _geo_of(m, desc, rep)
-                        if geo is None:
-                            continue
-                        if not all(geo.face(f)["ok"] for f in range(geo.nf)):
-                            rep.count("premise_failed"); rep.notes.append(f"{desc[0]}: not planar strictly convex"); continue
-                        mc = _mclass(geo)
-                        col = cols.get(mc)
-                        if col is None:
-                            col = cols[mc] = Collector(rep, mc, {})
-                        col.ctx = {"mesh": desc[0], "points": desc[1], "faces": [list(f) for f in faces], "polygon_2d": [list(p) for p in cyc], "shape": shape}
-                        rep.traces += 1
-                        rep.case(("convex", desc[1], faces))
-                        tag = {"symmetry": "central" if shape in ("parallelogram", "centrally_symmetric") else "none",
-                               "listing": "first_corner" if rot == 0 else "other_corner", "orientation": "ccw" if orient > 0 else "cw", "map": aff}
-                        for fname, cont, vtype, dim, tri_only in SURF_SPECS:
-                            if tri_only:
+                        # the first listing under the fully listed map is also placed far from the origin (one placement per shape, in rotation)
+                        places = [None] + ([tuple(["far"] + list(far[si % len(far)]))] if (far and full and rot == 0 and orient == 1) else [])
+                        for pl in places:
+                            ppts, ptag, pctx, pclause = _place(L.pts_to_json(pts), pl)
+                            if ppts is None:
+                                rep.count("far_filtered_inexact_coordinates"); continue
+                            desc = (f"convex{k}gon#{si % 1000}:{aff}:listing{rot}{'+' if orient > 0 else '-'}{':glued' if glue else ''}", ppts, faces)
+                            m = _build_surface(desc)
+                            geo = _geo_of(m, desc, rep)
+                            if geo is None:
                                 continue
-                            for extra in _variants(fname):
-                                opts = dict(extra, persistent=False, dense=True, **tag)
-                                if fname == "vertex_normals":
-                                    opts["custom"] = None
-                                check_surface_function(col, M, m, geo, fname, opts, rep, clause="convex_polygon")
-                        check_surface_globals(col, M, m, geo, rep, extra=tag, clause="convex_polygon",
-                                              only=("barycenter", "total_area", "mean_face_area", "euler_characteristic"))
+                            if not all(geo.face(f)["ok"] for f in range(geo.nf)):
+                                rep.count("premise_failed"); rep.notes.append(f"{desc[0]}: not planar strictly convex"); continue
+                            if pclause:
+                                geo.pt_tol = _far_pt_tol(geo)
+                                rep.count("far_convex_meshes")
+                            mc = _mclass(geo)
+                            col = cols.get(mc)
+                            if col is None:
+                                col = cols[mc] = Collector(rep, mc, {})
+                            col.ctx = dict({"mesh": desc[0], "points": desc[1], "faces": [list(f) for f in faces], "polygon_2d": [list(p) for p in cyc], "shape": shape}, **pctx)
+                            rep.traces += 1
+                            rep.case(("convex", desc[1], faces))
+                            tag = dict({"symmetry": "central" if shape in ("parallelogram", "centrally_symmetric") else "none",
+                                        "listing": "first_corner" if rot == 0 else "other_corner", "orientation": "ccw" if orient > 0 else "cw", "map": aff}, **ptag)
+                            clause = pclause or "convex_polygon"
+                            for fname, cont, vtype, dim, tri_only in SURF_SPECS:
+                                if tri_only:
+                                    continue
+                                for extra in _variants(fname):
+                                    opts = dict(extra, persistent=False, dense=True, **tag)
+                                    if fname == "vertex_normals":
+                                        opts["custom"] = None
+                                    check_surface_function(col, M, m, geo, fname, opts, rep, clause=clause)
+                            check_surface_globals(col, M, m, geo, rep, extra=tag, clause=clause,
+                                                  only=("barycenter", "total_area", "mean_face_area", "euler_characteristic"))
     for mc in sorted(cols):
         cols[mc].flush()
 
@@ -2311,6 +2593,31 @@ def finish(tier, rep: Report):
             fails.append("coverage flag missing: " + f)
     if rep.counters.get("convex_shapes") != len(_convex_shapes(tier)) or (tier == "thorough" and rep.counters.get("convex_shapes") != 219):
         fails.append(f"convex polygon family: {rep.counters.get('convex_shapes')} shapes ran, {len(_convex_shapes(tier))} expected")
+    # ---- far from the origin: every placement of the tier ran in every phase that carries it, on every face arity; the exactness filter fired
+    for k, j in _far_of(tier):
+        for pre in ("far:", "far_partner:", "vol_far:", "vol_far_partner:", "interp_far:"):
+            if pre + _far_label(k, j) not in rep.flags:
+                fails.append("far from the origin: coverage flag missing: " + pre + _far_label(k, j))
+    for f in ("far_class:tri", "far_class:quad", "far_class:poly", "far_class:mixed"):
+        if f not in rep.flags:
+            fails.append("far from the origin: coverage flag missing: " + f)
+    for c in ("far_opts_meshes", "far_vol_meshes", "far_partner_meshes", "far_convex_meshes", "far_filtered_inexact_coordinates"):
+        if not rep.counters.get(c):
+            fails.append(f"far from the origin: counter {c} is zero (the family did not run / the exactness filter never fired)")
+    # ---- kept result objects: re-read after later calls on the same geometry (every event kind of the BFS), after a deformation, after a similarity
+    for ev in sorted(set(e[0] for e in SURF_EVENTS)):
+        if "kept_after:" + ev not in rep.flags:
+            fails.append("kept results: never re-read after a later call of " + ev)
+    for ev in sorted(set(e[0] for e in VOL_EVENTS)):
+        if "vol_kept_after:" + ev not in rep.flags:
+            fails.append("kept results (volumes): never re-read after a later call of " + ev)
+    for d in SIMILARITIES:
+        for f in ("similarity_history:" + d[0], "vol_similarity_history:" + d[0]):
+            if f not in rep.flags:
+                fails.append("coverage flag missing: " + f)
+    for c in ("kept_results_reread", "kept_after_deformation_checks", "vol_kept_after_deformation_checks"):
+        if not rep.counters.get(c):
+            fails.append(f"kept results: counter {c} is zero")
     if rep.counters.get("deformation_left_the_points_unchanged"):
         fails.append("a deformation left the points unchanged (the history clause would be vacuous)")
     if not rep.counters.get("deform_recalls_judged"):
